@@ -45,9 +45,11 @@ def gen(ctx, rng):
             v = np.round(np.cumsum(rng.normal(0, 60, n)) + 3000)
         elif kind == 3:
             v = rng.integers(8000, 8020, size=n)                       # large level, small spread
+            if it % 2:                                                  # top of the int16 range, spread of a few units
+                v = int(rng.choice([31000, 29990, -19990])) + rng.integers(0, int(rng.choice([2, 4, 7])), size=n)
         else:
             v = np.full(n, int(rng.integers(0, 5000)))                  # no variance
-        v = np.clip(v, -20000, 30000).astype(int)
+        v = np.clip(v, -20000, 32000).astype(int)
         gp = rng.random()
         miss = np.zeros(n, dtype=bool)
         if gp < 0.25:
